@@ -9,6 +9,7 @@
   sampled by the correspondence run, not enumerated.
 -/
 import Proofs.Lemmas.Ensemble
+import Proofs.Lemmas.ComposeEnsemble
 
 namespace C08
 open Pool Ensemble
@@ -239,5 +240,113 @@ example : ∀ (y c : Sig), c ∈ (fun _ : Sig => [([1, 2, 3] : Sig), [0, 0, 1]])
   intro y c hc; simp at hc; rcases hc with rfl | rfl <;> rfl
 -- a noise matrix with distinct columns (hypothesis of ceemd_noise_distinct)
 example : ([[1, 2], [2, 1], [0, 0]] : List Sig).Nodup := by decide
+
+/-! ### Cross-model consistency: the ensemble mean of the Sift model (C03), and the classic sift of the
+    Sift model (C01/C03/C04) as the oracle `S`
+
+  Linked: `Ensemble.ensembleMean` / `ensembleSift` (this property) with `Sift.ensembleCols` /
+  `Sift.ensembleSift` (C03, written independently: `(1/N)·Σ` vs `Σ/N`, width by `foldl`/`if` vs
+  `foldr`/`max`); and the oracle `S` instantiated with `ComposeEnsemble.siftCols X thr cap fuel`
+  = the columns of `Sift.siftIx` (the classic capped sift of the Sift model), resp. with `get_next_imf`
+  (`Sift.extractorIx E D o`) as its extractor.  Helper lemmas: Proofs/Lemmas/ComposeEnsemble.lean. -/
+
+/-- The two models of the ensemble average compute the same columns from the same member decompositions
+    (same width = widest member, same zero padding, same mean). -/
+theorem ensemble_mean_agrees_with_sift_model (n : Nat) (members : List (List Sig)) :
+    Sift.ensembleCols n members = ensembleMean n members :=
+  ComposeEnsemble.ensembleCols_eq_ensembleMean n members
+
+/-- `ensemble_sift` of this model (pool, generator; single-noise mode) over the Sift model's classic sift
+    is `Sift.ensembleSift` on the scaled draws — for every schedule. -/
+theorem ensembleSift_agrees_with_sift_model (σ : Schedule) (p : Nat) (draw : ρ → Sig × ρ) (g : ρ)
+    (X : Nat → Sig → Option (Sig × Bool)) (thr : Rat) (cap : Option Nat) (fuel : Nat)
+    (N : Nat) (scale : Rat) (x : Sig) (hσ : σ.Valid N p) :
+    ensembleSift σ draw g (ComposeEnsemble.siftCols X thr cap fuel) .single N scale x
+      = Sift.ensembleSift X thr cap x fuel ((drawN draw N g).map (Sig.smul scale)) :=
+  ComposeEnsemble.ensembleSift_agree σ p draw g X thr cap fuel N scale x hσ
+
+/-- C03's cap theorem holds of this model: over a classic sift capped at `k ≥ 1` the ensemble returns at
+    most `k` columns, in both noise modes, for every ensemble size, scale, generator and schedule. -/
+theorem ensemble_cols_le_cap_classic_sift (σ : Schedule) (p : Nat) (draw : ρ → Sig × ρ) (g : ρ)
+    (X : Nat → Sig → Option (Sig × Bool)) (thr : Rat) (k fuel : Nat) (hk : 0 < k)
+    (mode : Mode) (N : Nat) (scale : Rat) (x : Sig) (hσ : σ.Valid N p) :
+    (ensembleSift σ draw g (ComposeEnsemble.siftCols X thr (some k) fuel) mode N scale x).length ≤ k :=
+  ComposeEnsemble.ensembleSift_cols_le_cap σ p draw g X thr k fuel hk mode N scale x hσ
+
+/-- Zero noise, two models together: with the Sift model's classic sift as `S` (any extractor meeting the
+    contract `ExtractorOK`, any threshold, cap and fuel) the ensemble result *is* the classic capped sift
+    of the input — both noise modes, every ensemble size ≥ 1, generator and schedule. -/
+theorem ensemble_zero_noise_eq_classic_sift (σ : Schedule) (p : Nat) (draw : ρ → Sig × ρ) (g : ρ)
+    (X : Nat → Sig → Option (Sig × Bool)) (thr : Rat) (cap : Option Nat) (fuel : Nat)
+    (mode : Mode) (N : Nat) (x : Sig) (hσ : σ.Valid N p) (hN : 0 < N)
+    (hdraw : ∀ i, (nthDraw draw g i).length = x.length) (hX : Sift.ExtractorOK X x.length) :
+    ensembleSift σ draw g (ComposeEnsemble.siftCols X thr cap fuel) mode N 0 x = (Sift.siftIx X thr cap x fuel).1 :=
+  (ensemble_zero_noise_eq_sift σ p draw g _ mode N x hσ hN hdraw (C01.sift_col_lengths X thr cap x hX fuel)).2
+
+/-- … with `get_next_imf` (C04 model, every envelope oracle with length-preserving envelopes, every stop
+    rule) as the extractor: zero noise ⇒ `ensemble_sift` equals `sift`. -/
+theorem ensemble_zero_noise_eq_getNextImf_sift (σ : Schedule) (p : Nat) (draw : ρ → Sig × ρ) (g : ρ)
+    (E : Nat → Sig → Sift.Env) (hE : Sift.EnvLen E) (D : Sig → Sig → Rat) (o : Sift.ImfOpts)
+    (he : o.energyThresh = none) (thr : Rat) (cap : Option Nat) (fuel : Nat)
+    (mode : Mode) (N : Nat) (x : Sig) (hσ : σ.Valid N p) (hN : 0 < N)
+    (hdraw : ∀ i, (nthDraw draw g i).length = x.length) :
+    ensembleSift σ draw g (ComposeEnsemble.siftCols (fun _ => Sift.extractorIx E D o) thr cap fuel) mode N 0 x
+      = (Sift.sift (Sift.extractorIx E D o) thr cap x fuel).1 :=
+  ensemble_zero_noise_eq_classic_sift σ p draw g _ thr cap fuel mode N x hσ hN hdraw
+    (C01.getNextImf_contract E hE D o he x.length)
+
+/-- … hence C01's completeness carries over: with zero noise, when the classic sift ends because the
+    extraction cleared the continue flag, the ensemble components sum back to the input exactly. -/
+theorem ensemble_zero_noise_complete (σ : Schedule) (p : Nat) (draw : ρ → Sig × ρ) (g : ρ)
+    (E : Nat → Sig → Sift.Env) (hE : Sift.EnvLen E) (D : Sig → Sig → Rat) (o : Sift.ImfOpts)
+    (he : o.energyThresh = none) (thr : Rat) (cap : Option Nat) (fuel : Nat)
+    (mode : Mode) (N : Nat) (x : Sig) (hσ : σ.Valid N p) (hN : 0 < N)
+    (hdraw : ∀ i, (nthDraw draw g i).length = x.length) (cols : List Sig) (cp th : Bool)
+    (h : Sift.sift (Sift.extractorIx E D o) thr cap x fuel = (cols, .done true cp th)) :
+    Sig.vsum x.length
+      (ensembleSift σ draw g (ComposeEnsemble.siftCols (fun _ => Sift.extractorIx E D o) thr cap fuel) mode N 0 x) = x := by
+  rw [ensemble_zero_noise_eq_getNextImf_sift σ p draw g E hE D o he thr cap fuel mode N x hσ hN hdraw, h]
+  exact C01.sift_getNextImf_complete E hE D o he thr cap x fuel cols cp th h
+
+-- non-vacuity: `C01` shows an extractor meeting the contract (`C01.tabX`, 7 samples); a generator whose
+-- arrays have the signal's length (hypothesis `hdraw`), schedule `σex` above
+example : ∀ i (g : Nat), (nthDraw (fun g : Nat => (List.replicate 7 (g : Rat), g + 1)) g i).length
+    = ([1, 3, 2, 5, 4, 7, 7] : Sig).length := by
+  intro i
+  induction i with
+  | zero => intro g; simp [nthDraw]
+  | succ k ih => intro g; exact ih _
+example : Sift.ensembleCols 2 [[[1, 2], [3, 4]], [[3, 4]]] = ensembleMean 2 [[[1, 2], [3, 4]], [[3, 4]]] ∧
+    ensembleMean 2 [[[1, 2], [3, 4]], [[3, 4]]] = [[2, 3], [3/2, 2]] := by decide +kernel
+
+/-! ### Cross-model consistency: `complete_ensemble_sift` in the Sift model (C03) and in this model
+
+  Linked: `Sift.ceemd` (C03: stop logic — fewer than two peaks / cap / mean-abs threshold — around an
+  abstract ensemble step) and `Ensemble.ceemd` (this property: noise matrix, members, pools, noise
+  residuals, a given number of stages, no stop logic).  `ComposeEnsemble.stepNx F Fn mode scale M` is the
+  ensemble step of the former built from the ingredients of the latter. -/
+
+/-- The two models of `complete_ensemble_sift` return the same columns: whatever the Sift model returns
+    (any exit), this model run for `(number of columns) − 1` stages returns exactly those columns, for
+    every valid family of pool schedules. -/
+theorem ceemd_agrees_with_sift_model (σ : Nat → Schedule) (p : Nat → Nat) (F Fn : Sig → Sig) (mode : Mode)
+    (scale : Rat) (M : List Sig) (thr : Rat) (cap : Option Nat) (x : Sig) (fuel : Nat)
+    (hσ : ∀ c, (σ c).Valid M.length (p c)) :
+    (ceemd σ F Fn mode scale M x
+        ((Sift.ceemd (ComposeEnsemble.stepNx F Fn mode scale M) thr cap x fuel).1.length - 1)).1
+      = (Sift.ceemd (ComposeEnsemble.stepNx F Fn mode scale M) thr cap x fuel).1 :=
+  ComposeEnsemble.ceemd_agree σ p F Fn mode scale M thr cap x fuel hσ
+
+/-- … hence the composed `complete_ensemble_sift` (stop logic of C03 + members of C08) respects a cap
+    `k ≥ 1` (C03.ceemd_cols_le_cap) and every one of its columns is the member mean that
+    `ceemd_stage_mean` describes. -/
+theorem ceemd_composed_cols_le_cap (σ : Nat → Schedule) (p : Nat → Nat) (F Fn : Sig → Sig) (mode : Mode)
+    (scale : Rat) (M : List Sig) (thr : Rat) (k : Nat) (hk : 0 < k) (x : Sig) (fuel : Nat)
+    (hσ : ∀ c, (σ c).Valid M.length (p c)) :
+    ∃ stages, stages + 1 ≤ k ∧
+      (ceemd σ F Fn mode scale M x stages).1
+        = (Sift.ceemd (ComposeEnsemble.stepNx F Fn mode scale M) thr (some k) x fuel).1 := by
+  have hcap := C03.ceemd_cols_le_cap (ComposeEnsemble.stepNx F Fn mode scale M) thr x fuel k hk
+  exact ⟨_, by omega, ceemd_agrees_with_sift_model σ p F Fn mode scale M thr (some k) x fuel hσ⟩
 
 end C08
